@@ -249,7 +249,35 @@ func ExecNCLoop(c *HistCase, pfx string, reapply bool) (nontrivial bool, labels 
 		}
 		for _, cl := range fake.CallsFrom(before) {
 			if cl.Op == "EditConfig" || cl.Op == "Commit" {
-				return nontrivial, keys(lab), Failf(pfx+":ncloop:reapply-sends-edit", "re-submitting the live intents verbatim sent %s %s to the device\ndevice: %s", cl.Op, cl.Doc, JSON(norm(dev)))
+				sig := pfx + ":ncloop:reapply-sends-edit"
+				if cl.Op == "EditConfig" {
+					// is everything in the document a presence container the device holds through its children only?
+					ch := DecodeXMLDoc(cl.Doc, nco.IncludeNS)
+					only := len(ch.Updates) > 0 && len(ch.Deletes) == 0 && len(ch.Replaces) == 0 && len(ch.Anomalies) == 0
+					for k := range ch.Updates {
+						p := MustCanon(k)
+						if p.IsKeyLeaf() {
+							continue
+						}
+						if n := p.Node(); n == nil || n.Kind != KContainer {
+							only = false
+							continue
+						}
+						kept := false
+						for o := range dev {
+							if q := MustCanon(o); p.IsStrictAncestorOf(q) && !q.IsKeyLeaf() {
+								kept = true
+							}
+						}
+						if !kept {
+							only = false
+						}
+					}
+					if only {
+						sig += ":presence-container-kept-by-children"
+					}
+				}
+				return nontrivial, keys(lab), Failf(sig, "re-submitting the live intents verbatim sent %s %s to the device\ndevice: %s", cl.Op, cl.Doc, JSON(norm(dev)))
 			}
 		}
 		lab["reapplied-verbatim"] = true
